@@ -1,5 +1,6 @@
 import Rq.Spec.Defs
 import Rq.Thm.C15
+import Rq.Lemmas.IsiBound
 import Rq.Lemmas.EncoderSpec
 import Rq.Lemmas.LinearC
 /-!
@@ -98,7 +99,7 @@ theorem new_good (sv : Solver) (hs : SolverSpec sv) (sbn : Nat) (o : Oti) (data 
               · exact hsrc s hs'
             · rw [List.eq_of_mem_replicate hs']; exact wf_zeroSym _
         have hcs := consistent_of_determined a aok hsq hdet o.t _ hrhs
-        obtain ⟨hcwf, hsol, _⟩ := hs.full_solved sp _ a o.t _ c ha ht hrhs hcs h3
+        obtain ⟨hcwf, hsol, _⟩ := hs.full_solved _ sp _ a o.t _ c h2 (range_kp_lt _ _ h2) ha ht hrhs hcs h3
         exact ⟨ht, rfl, h2, hsrc, hl ▸ hcwf, ⟨a, ha, hsol⟩, ⟨a, ha, hdet⟩⟩
 
 /-- a replayed plan is *valid* for (sp, t, src) when it runs and its result satisfies the system -/
